@@ -488,7 +488,7 @@ def mon_C11(case):
 
 
 def ack_fields(out):
-    return dict(x.split("=", 1) for x in out.split()[2:] if "=" in x)
+    return dict(x.split("=", 1) for x in out.split()[1:] if "=" in x)
 
 
 def mon_C12_ack(case):
